@@ -23,7 +23,7 @@
      removed since (C10/ConfigSpec.v, 40 lines).  [obs] merges the three
      "nothing removed" result classes. *)
 From MptV Require Import Base.Mem C10.ConfigModel C10.ConfigSpec C10.PathProofs C10.PathAdd C10.TreeQuery
-  C10.TreeOps C10.TreeAssign C10.StoreRefine C10.ItemProofs C10.RootRefine C10.TreeView C10.ViewRefine.
+  C10.TreeOps C10.TreeAssign C10.StoreRefine C10.ItemProofs C10.RootRefine C10.TreeView C10.ViewRefine C10.ApiRefine.
 
 (* ---- paths ---- *)
 
@@ -130,6 +130,91 @@ Theorem C10_clear_beneath_only :
     forall k, tlook g' k = if key_proper_prefix (elems b) k then Absent else tlook g k.
 Proof. exact clear_beneath_only. Qed.
 
+(* ---- the interface as callers use it (config_get.c, config_set.c, mpt++/config.cpp) ----
+
+   [wop] adds to the plain interface calls ([WVt]) the entry points programs really call:
+   mpt_config_set / config::set on a C string with separator and end character ([WSet],
+   no value = removal), config::del with an explicit length ([WDel]), mpt_config_getp /
+   config::get(path, type, ptr) ([WGetp]) and mpt_config_get on a '.'-separated string
+   ([WGet]) with the requested conversion (existence only / 's' / vector of char),
+   conversion of a view to its node ([WNode]: gets or creates the base element),
+   remove(NULL) on a view ([WUnset]: drops the value of the base element) and a query
+   whose handler walks the collection it is given ([WList]).  [wstep] runs one of them on
+   the forest (ConfigModel.v: each is a composition of mpt_path_set and the operations
+   above), [wsstep] on the history specification, keyed by [str_key_end] / [del_key] /
+   [elems]; [wobs] keeps result classes, returned values and presence. *)
+
+(* ANY history of caller-level operations on the global configuration and its views:
+   every returned value (mpt_config_get / getp give the text most recently assigned to
+   exactly that key, MissingData for an absent or value-less one), every result class
+   and every presence answer is what the specification says. *)
+Theorem C10_api_refines_map :
+  forall ops, Forall wop_ok ops ->
+    map wobs (fst (wrun [] ops)) = map wobs (fst (wsrun [] (map whop_of ops) (fst (wrun [] ops)))).
+Proof. exact (fun ops H => wrun_refines ops [] [] R_init H). Qed.
+
+Theorem C10_api_step_refines :
+  forall g h o, R g h -> wop_ok o ->
+    let '(g', out) := wstep g o in
+    let '(h', sout) := wsstep h (whop_of o) (waccepted out) in
+    wobs out = wobs sout /\ R g' h'.
+Proof. exact wstep_refines. Qed.
+
+(* The value accessors read the specification directly, in every reachable state:
+   mpt_config_getp / mpt_config_get return [get_view] of the entry the history
+   specification holds for that key (through a view: below its base). *)
+Theorem C10_getp_reads_spec :
+  forall g h b p ty, R g h -> hpath b -> pwf p ->
+    cfg_getp g b p ty = Done (get_view false ty (squery h (elems b) (elems p))).
+Proof. exact getp_reads_spec. Qed.
+
+Theorem C10_get_reads_spec :
+  forall g h b s ty, R g h -> hpath b ->
+    cfg_get g b s ty = Done (get_view false ty (squery h (elems b) (str_key s 46%N))).
+Proof. exact get_reads_spec. Qed.
+
+(* mpt_config_set(conf, path, val, sep, end): the string names the key made of its
+   separator-delimited components up to the end character; config::del(path, sep, len):
+   of its first len bytes. *)
+Theorem C10_string_key_end :
+  forall s sep en, exists p, str_path s sep en = Done p /\ pwf p /\ elems p = str_key_end s sep en.
+Proof. exact str_path_end_key. Qed.
+
+Theorem C10_del_key :
+  forall s sep len, del_len_ok s len ->
+    exists p, del_path s sep len = Done p /\ pwf p /\ elems p = del_key s sep len.
+Proof. exact del_path_key. Qed.
+
+(* The collection handed to a query handler (collectionEach) is the store beneath the
+   queried element: the element's own value is the one the store holds for its key and
+   reading any key in the listed sub-elements equals reading it below that key. *)
+Theorem C10_listing_reads_store :
+  forall g b p mt kids, hpath b -> pwf p -> cfg_list g b p = Done (Some (mt, kids)) ->
+    (elems b ++ elems p <> [] -> tlook g (elems b ++ elems p) = Exists mt) /\
+    forall k, k <> [] -> tlook kids k = tlook g ((elems b ++ elems p) ++ k).
+Proof. exact cfg_list_sound. Qed.
+
+(* The private C++ configuration through config::set / del / get, assignment without
+   value ([XUnset]: the value goes, the element stays) and query with a listing handler
+   (NULL: the top-level items) refines the same specification. *)
+Theorem C10_root_api_refines_map :
+  forall ops, Forall xop_ok ops ->
+    map xobs (fst (xrun [] ops)) = map xobs (fst (xsrun [] (map xhop_of ops) (fst (xrun [] ops)))).
+Proof. exact (fun ops H => xrun_refines ops [] [] RI_init H). Qed.
+
+Theorem C10_root_listing_reads_store :
+  forall a p, pwf p -> elems p <> [] ->
+    exists l, root_list a (Some p) = Done l /\ lentry l = ilook a (elems p) /\
+      forall mt sub, l = Some (mt, sub) -> forall k, k <> [] -> ilook sub k = ilook a (elems p ++ k).
+Proof. exact root_list_spec. Qed.
+
+(* mpt_path_invalidate / mpt::path::clear_data: the post data goes, the elements stay. *)
+Theorem C10_clear_keeps_elements :
+  forall cxx p, pwf p -> (parr p = true -> poff p + plen p <= length (pbase p)) ->
+    exists p', path_clear cxx p = Done p' /\ pwf p' /\ elems p' = elems p /\ pwalk p' = Done (elems p) /\
+               (parr p = true -> length (pbase p') = poff p + plen p).
+Proof. exact path_clear_spec. Qed.
+
 (* ---- non-vacuity ---- *)
 Definition bs (l : list nat) : list byte := map N.of_nat l.
 Definition mk (s : list nat) : path :=
@@ -182,6 +267,57 @@ Example C10_rebuild_example :
   end.
 Proof. vm_compute. split; reflexivity. Qed.
 
+
+(* caller-level history: set "a.b"; read it (vector of char); "a" has no value; a view on
+   "x.y" handed out as node creates x and x.y; set "c" through the view on "a"; list "a";
+   config::del("a.bZ", '.', 3) removes a.b; mpt_config_set("a.c=7", NULL, '.', '=') removes
+   a.c; "a" is still there; its value is set through the view and dropped by remove(NULL) *)
+Example C10_api_history_example :
+  fst (wrun [] [WSet gl (Some (bs [97;46;98])) 46%N 0%N (Some (bs [1]));
+                WGet gl (Some (bs [97;46;98])) GVec; WGet gl (Some (bs [97])) GStr;
+                WNode (mk [120;46;121]); WGetp gl (mk [120]) GExist; WGetp (mk [120]) (mk [121]) GVec;
+                WSet (mk [97]) (Some (bs [99])) 46%N 0%N (Some (bs [2]));
+                WList gl (mk [97]);
+                WDel gl (Some (bs [97;46;98;90])) 46%N (Some 3);
+                WGet gl (Some (bs [97;46;98])) GVec; WGet gl (Some (bs [97;46;99])) GVec;
+                WSet gl (Some (bs [97;46;99;61;55])) 46%N 61%N None;
+                WGet gl (Some (bs [97;46;99])) GExist; WGet gl (Some (bs [97])) GExist;
+                WSet (mk [97]) None 46%N 0%N (Some (bs [3])); WUnset (mk [97]); WGet gl (Some (bs [97])) GVec])
+  = [WOut (OutRc RcOk); WVal (GText (bs [1])); WVal GMissing;
+     WNodeAt (Some [1; 0]); WVal GFound; WVal GMissing;
+     WOut (OutRc RcOk);
+     WListing (Some (None, [Node (bs [98]) (Some (bs [1])) []; Node (bs [99]) (Some (bs [2])) []]));
+     WOut (OutRc RcRemoved); WVal GMissing; WVal (GText (bs [2]));
+     WOut (OutRc RcRemoved); WVal GMissing; WVal GFound;
+     WOut (OutRc RcOk); WOut (OutRc RcCleared); WVal GMissing].
+Proof. vm_compute. reflexivity. Qed.
+
+(* text of 250 bytes and more is kept in a buffer metatype by the C store: readable as
+   vector of char, not as 's'; the C++ store hands out both *)
+Example C10_long_value_views :
+  get_view false GStr (Exists (Some (bs (repeat 118 250)))) = GBadType /\
+  get_view false GVec (Exists (Some (bs (repeat 118 250)))) = GText (bs (repeat 118 250)) /\
+  get_view false GStr (Exists (Some (bs (repeat 118 249)))) = GText (bs (repeat 118 249)) /\
+  get_view true GStr (Exists (Some (bs (repeat 118 250)))) = GText (bs (repeat 118 250)).
+Proof. vm_compute. repeat split; reflexivity. Qed.
+
+Example C10_root_api_example :
+  fst (xrun [] [XSet (Some (bs [97;46;98])) 46%N (Some (bs [1])); XSet (Some (bs [99])) 46%N (Some (bs [2]));
+                XGetp (mk [97;46;98]) GStr; XUnset (mk [97;46;98]); XGetp (mk [97;46;98]) GStr;
+                XGetp (mk [97;46;98]) GExist; XList None; XDel (Some (bs [97;46;98])) 46%N (Some 1);
+                XList (Some (mk [97])); XGetp (mk [99]) GVec])
+  = [XOut (OutRc RcOk); XOut (OutRc RcOk); XVal (GText (bs [1])); XOut (OutRc RcOk); XVal GMissing; XVal GFound;
+     XListing (Some (None, [Item (Some (bs [97])) None [Item (Some (bs [98])) None []];
+                            Item (Some (bs [99])) (Some (bs [2])) []]));
+     XOut (OutRc RcRemoved); XListing None; XVal (GText (bs [2]))].
+Proof. vm_compute. reflexivity. Qed.
+
+(* post data "arbc": element "a" added ('r' becomes the delimiter), "bc" dropped again *)
+Example C10_clear_example :
+  let p := fst (pstep (fst (pstep (fst (pstep (path_init 46%N 0%N) (PPost (bs [97;114;98;99])))) (PAdd 1))) (PClear true)) in
+  pbase p = bs [97; 0] /\ pwalk p = Done [bs [97]].
+Proof. vm_compute. split; reflexivity. Qed.
+
 Print Assumptions C10_path_elements.
 Print Assumptions C10_path_elements_string.
 Print Assumptions C10_string_key.
@@ -193,3 +329,13 @@ Print Assumptions C10_step_refines.
 Print Assumptions C10_assign_frame.
 Print Assumptions C10_remove_subtree_only.
 Print Assumptions C10_clear_beneath_only.
+Print Assumptions C10_api_refines_map.
+Print Assumptions C10_api_step_refines.
+Print Assumptions C10_getp_reads_spec.
+Print Assumptions C10_get_reads_spec.
+Print Assumptions C10_string_key_end.
+Print Assumptions C10_del_key.
+Print Assumptions C10_listing_reads_store.
+Print Assumptions C10_root_api_refines_map.
+Print Assumptions C10_root_listing_reads_store.
+Print Assumptions C10_clear_keeps_elements.
